@@ -3,6 +3,7 @@
 `ex.used_intrinsics` and ends up in the evidence's trusted base."""
 from __future__ import annotations
 
+import os
 import ast
 import builtins
 import collections
@@ -1249,7 +1250,7 @@ class Intrinsics:
         if isinstance(v, SMarkup):
             return v
         if isinstance(v, (SInt,)):
-            self.use("str(int) (uninterpreted int2str)")
+            self.use("str(int) (uninterpreted int2str; CPython's 4300-digit conversion limit is not modelled: integers are taken below 10**4300)")
             return SStr(F_int2str(v.t))
         if isinstance(v, SBool):
             if ex.pure:
